@@ -112,9 +112,15 @@ int libwifi_bss_handle_msft_tag(struct libwifi_bss *bss, const unsigned char *ms
             }
             bss->encryption_info |= WPA;
 
+            // The version and multicast cipher suite are read unconditionally
+            if (msft_len < (int) (sizeof(struct libwifi_tag_vendor_header) + sizeof(wpa_info.wpa_version) +
+                                  sizeof(struct libwifi_cipher_suite))) {
+                return -EINVAL;
+            }
+
             // Skip 4 bytes for the OUI (3) and Vendor Tag Type (1)
             const unsigned char *wpa_data = msft_data + sizeof(struct libwifi_tag_vendor_header);
-            const unsigned char *wpa_end = msft_data + (msft_len + sizeof(struct libwifi_tag_vendor_header));
+            const unsigned char *wpa_end = msft_data + msft_len;
 
             if ((libwifi_get_wpa_info(&wpa_info, wpa_data, wpa_end) != 0)) {
                 return -EINVAL;
